@@ -1,6 +1,7 @@
 package props
 
 import (
+	"strings"
 	"testing"
 
 	"github.com/nspcc-dev/neo-go/pkg/neotest"
@@ -42,7 +43,7 @@ func drawDelta(rt *rapid.T, r *nnsRun) int64 {
 func TestC10Stateful(t *testing.T) {
 	theT = t
 	col := ev.New("C10", "stateful",
-		"rapid state machine with a harness-owned clock over registerTLD/register (levels 2..4 under com/org, lifetimes 1/2/5/1000 s and 1 year)/transfer (to other users, to self, to a contract)/renew 1..10 years/setAdmin, every call made by properly authorised signers, each block placed at now+1 ms or exactly at exp-1/exp/exp+1 of a known name; after every step totalSupply, balanceOf and tokensOf of every owner, and isAvailable/ownerOf/properties of all 10 names of the universe at now+1 and at exp-1/exp/exp+1 of each name are compared with the ownership model; Transfer/Renew notifications per transaction are exact; non-trivial = a takeover of an expired name by a different owner or an operation placed exactly at an expiration instant",
+		"rapid state machine with a harness-owned clock over registerTLD/register (levels 2..4 under com/org, lifetimes 1/2/5/1000 s and 1 year)/transfer (to other users, to self, to a contract; one in three with another spelling of the token id - trailing root dot, upper-case first letter - which must be refused or be a complete transfer of the name)/renew 1..10 years/setAdmin, every call made by properly authorised signers, each block placed at now+1 ms or exactly at exp-1/exp/exp+1 of a known name; after every step totalSupply, balanceOf and tokensOf of every owner, and isAvailable/ownerOf/properties of all 10 names of the universe at now+1 and at exp-1/exp/exp+1 of each name are compared with the ownership model; Transfer/Renew notifications per transaction are exact; non-trivial = a takeover of an expired name by a different owner or an operation placed exactly at an expiration instant",
 		"isAvailable of an unexpired name under an expired parent is don't-care (statement silent)", "calls are authorised as C11 demands (authorisation itself is C11)")
 	runRapid(t, col, func(rt *rapid.T, h *ev.History) {
 		w := newNnsWorld(1, h)
@@ -126,7 +127,15 @@ func TestC10Stateful(t *testing.T) {
 				if !ok {
 					wh = as(owners[0])
 				}
-				r.opTransfer(wh, delta, name, rapid.SampledFrom(owners).Draw(rt, "to"))
+				to := rapid.SampledFrom(owners).Draw(rt, "to")
+				switch rapid.IntRange(0, 5).Draw(rt, "idSpelling") {
+				case 0:
+					r.opTransferAlias(wh, delta, name, name+".", to)
+				case 1:
+					r.opTransferAlias(wh, delta, name, strings.ToUpper(name[:1])+name[1:], to)
+				default:
+					r.opTransfer(wh, delta, name, to)
+				}
 			case "renew":
 				name := pick("name", nnsUniverse)
 				wh, ok := ownerWho(name)
